@@ -118,6 +118,48 @@ pub fn check_graph(gs: &GraphSpec, count: &mut SeqCount) -> Result<Option<SeqVio
             return Some(v);
         }
         let reference = ids.clone();
+        // a lazy map() iterator that is dropped half-way must not disturb later calls
+        for k in [1usize, n / 2] {
+            if k == 0 || k >= n {
+                continue;
+            }
+            {
+                let mut it = g.map(|f| f.id);
+                let mut part = Vec::new();
+                for _ in 0..k {
+                    if let Some(x) = it.next() {
+                        part.push(x);
+                    }
+                }
+                count.traversals += 1;
+                // the consumed prefix itself must be a valid prefix
+                let mut seen = vec![false; n];
+                for &i in &part {
+                    if i >= n || seen[i] || built.preds[i].iter().any(|&p| !seen[p]) {
+                        return Some(SeqViolation {
+                            class: "order",
+                            op: "map (partially consumed)".into(),
+                            msg: format!("map() yielded prefix {part:?} which is not a prefix of a valid order"),
+                        });
+                    }
+                    seen[i] = true;
+                }
+            }
+            let mut ids = Vec::new();
+            g.for_each(|f| ids.push(f.id));
+            count.traversals += 1;
+            if let Some(mut v) = check_order("for_each", &ids, &built, false) {
+                v.op = "for_each after a partially consumed map()".into();
+                v.msg = format!("after map() was dropped after {k} items: {}", v.msg);
+                return Some(v);
+            }
+            let ids: Vec<usize> = g.iter().map(|f| f.id).collect();
+            count.traversals += 1;
+            if let Some(mut v) = check_order("iter", &ids, &built, false) {
+                v.msg = format!("after map() was dropped after {k} items: {}", v.msg);
+                return Some(v);
+            }
+        }
         // try_fold / try_for_each: no failure, then every failing position
         for k in 0..=n {
             let fail_at = if k == n { None } else { Some(k) };
@@ -275,6 +317,7 @@ fn graph_hash(g: &GraphSpec) -> u64 {
         h.u64(f.reads as u64);
         h.u64(f.writes as u64);
         h.u8(f.style);
+        h.u8(f.own);
     }
     for e in &g.calls {
         h.usize(e.from);
